@@ -297,3 +297,27 @@ def quiet_legacy_logger():
     ebb_serial.logger.setLevel(logging.DEBUG)
     ebb_serial.logger.propagate = False
     return sink
+
+
+def by_keyword(func, args, observe=None):
+    """The call made positionally and made with every argument by name must come to the same
+    thing - "every input" includes every way Python lets a caller hand the input over (a
+    wrapper that forwards *args only, a parameter renamed in one place).  Arguments are deep
+    copies each time; `observe(result, args)` says what to compare (default: the result; for
+    functions that work in place, the argument afterwards).  Returns None or a message."""
+    import copy                             # pylint: disable=import-outside-toplevel
+    import inspect                          # pylint: disable=import-outside-toplevel
+    names = list(inspect.signature(func).parameters)[:len(args)]
+    outcomes = []
+    for named in (False, True):
+        mine = copy.deepcopy(list(args))
+        try:
+            got = func(**dict(zip(names, mine))) if named else func(*mine)
+            outcomes.append(("value", observe(got, mine) if observe else got))
+        except Exception as exc:            # pylint: disable=broad-except
+            outcomes.append(("raised", type(exc).__name__))
+    if outcomes[0] != outcomes[1] and repr(outcomes[0]) != repr(outcomes[1]):
+        shown = ", ".join(f"{k}={v!r}" for k, v in zip(names, args))
+        return (f"{getattr(func, '__name__', func)}({shown}) with every argument by name gives "
+                f"{outcomes[1]!r}, the same call made positionally gives {outcomes[0]!r}")[:700]
+    return None
